@@ -328,11 +328,6 @@ func (vc *VC) refBound(name, arr, alloc string) {
 	if vc.dry {
 		return
 	}
-	if name == byteHeap {
-		// every cell of the byte heap holds a byte
-		vc.define(fmt.Sprintf("(forall ((r Int) (i Int)) (! (and (<= 0 (select (select %s r) i)) (<= (select (select %s r) i) 255)) :pattern ((select (select %s r) i))))", arr, arr, arr))
-		return
-	}
 	if !vc.refArr[name] {
 		return
 	}
